@@ -2113,6 +2113,9 @@ pub fn c14_tcp_faults(args: &Args) {
             for (id, l, took, r) in results {
                 let ran = c.get(&id).copied().unwrap_or(0);
                 out.count("requests_checked", 1);
+                if id % 2 == 1 {
+                    out.count("requests_sent_by_value_(send_owned)", 1);
+                }
                 let outcome = format!("{r:?}");
                 if ran > 1 {
                     out.violate("C14:request-executed-more-than-once:real-tcp", json!({"request": id, "handler_invocations": ran, "outcome": outcome, "batch": b, "action": action}));
